@@ -213,6 +213,22 @@ def b_at(ex: Exec, node: ast.Call) -> SV:
     return ex.typed_nopc(S.nth(st, S.un_int(i.t)), ety)
 
 
+def b_mem(ex: Exec, node: ast.Call) -> SV:
+    """mem(S, k): k occurs in the sequence S (E-matchable; definition sorts.mem_definition)."""
+    s = ex.eval(node.args[0])
+    k = ex.eval(node.args[1])
+    st = s.t if s.ty.kind == "raw" else ex.seq(s)
+    if not getattr(ex, "_mem_def", False):
+        ex._mem_def = True
+        if not getattr(ex, "_elt_def", False):
+            ex._elt_def = True
+            ex.assume(S.elt_definition())
+        if not getattr(ex, "_gather_lemma", False):
+            for a in S.mem_definition():
+                ex.assume(a)
+    return sv_bool(S.mem(st, k.t))
+
+
 def b_empty_set(ex: Exec, node: ast.Call) -> SV:
     return raw(z3.K(S.Val, z3.BoolVal(False)))
 
@@ -388,14 +404,22 @@ def b_dict_wf(ex: Exec, node: ast.Call) -> SV:
     k = z3.Const("k!wf", S.Val)
     i, j = z3.Int("i!wf"), z3.Int("j!wf")
     ki = S.key_index(s0, k)
-    return sv_bool(
-        z3.And(
-            z3.ForAll([k], z3.Select(dom, k) == z3.Contains(s0, z3.Unit(k))),
-            z3.ForAll([i, j], z3.Implies(z3.And(0 <= i, i < j, j < z3.Length(s0)), s0[i] != s0[j])),
-            # every key has a position (definition of key_index on a duplicate-free key order)
-            z3.ForAll([k], z3.Implies(z3.Select(dom, k), z3.And(0 <= ki, ki < z3.Length(s0), s0[ki] == k))),
-        )
-    )
+    parts = [
+        z3.ForAll([k], z3.Select(dom, k) == z3.Contains(s0, z3.Unit(k))),
+        z3.ForAll([i, j], z3.Implies(z3.And(0 <= i, i < j, j < z3.Length(s0)), s0[i] != s0[j])),
+        # every key has a position (definition of key_index on a duplicate-free key order)
+        z3.ForAll([k], z3.Implies(z3.Select(dom, k), z3.And(0 <= ki, ki < z3.Length(s0), s0[ki] == k))),
+    ]
+    if not getattr(ex, "_elt_def", False):
+        ex._elt_def = True
+        ex.assume(S.elt_definition())
+    if True:
+        # the same facts over the E-matchable alias elt(S, i) = S[i]
+        parts += [
+            z3.ForAll([i], z3.Implies(z3.And(0 <= i, i < z3.Length(s0)), z3.Select(dom, S.ELT(s0, i)))),
+            z3.ForAll([i, j], z3.Implies(z3.And(0 <= i, i < j, j < z3.Length(s0)), S.ELT(s0, i) != S.ELT(s0, j))),
+        ]
+    return sv_bool(z3.And(parts))
 
 
 def b_all_in(ex: Exec, node: ast.Call) -> SV:
@@ -410,6 +434,9 @@ def b_all_in(ex: Exec, node: ast.Call) -> SV:
     if getattr(ex, "bound_depth", 0) == 0:
         j = z3.Int("j!ai")
         ex.assume(p == z3.ForAll([j], z3.Implies(z3.And(0 <= j, j < z3.Length(st)), z3.Select(dom, st[j]))))
+        if getattr(ex, "_elt_def", False):
+            # the same definition over the E-matchable alias elt(S, j) = S[j]
+            ex.assume(p == z3.ForAll([j], z3.Implies(z3.And(0 <= j, j < z3.Length(st)), z3.Select(dom, S.ELT(st, j)))))
     return sv_bool(p)
 
 
@@ -543,6 +570,7 @@ _TABLE = {
     "store": b_store,
     "select": b_select,
     "at": b_at,
+    "mem": b_mem,
     "empty_set": b_empty_set,
     "empty_seq": b_empty_seq,
     "fresh": b_fresh,
